@@ -283,6 +283,8 @@ def _read_attributes_section(
             annotation = parse_docstring_annotation(annotation, docstring)
         else:
             name = name_with_type
+            # Each item starts without annotation: nothing is carried over from the previous one.
+            annotation = None
             with suppress(AttributeError, KeyError, TypeError, ValueError):
                 # Use subscript syntax to fetch annotation from inherited members too.
                 annotation = docstring.parent[name].annotation  # type: ignore[index]
